@@ -4,7 +4,8 @@ statement: the produced expression, read back through the produced import table,
 from, the table must be injective and contain nothing the expression does not use."""
 import re
 
-BASICS = ["int", "string", "bool", "float64", "error", "any", "byte", "uint8"]
+BASICS = ["int", "string", "bool", "float64", "error", "any", "byte", "uint8",
+          "int8", "int64", "uint", "float32", "complex128", "uintptr", "rune", "uint16"]
 PKG_NAMES = ["store", "store", "cache", "api", "cache", "v3", "util", "store"]
 
 def arity(name):
@@ -16,7 +17,7 @@ def gen_type(rng, npk, depth, allow_iface_lit):
     r = rng.randint(0, 99)
     if leafy or r < 22:
         if rng.chance(0.35):
-            return ("basic", rng.randint(0, 5))
+            return ("basic", rng.randint(0, 5) if rng.chance(0.7) else rng.randint(6, 15))
         name = rng.choice([16, 19, 22]) if leafy else rng.randint(16, 22)
         p = rng.randint(0, npk - 1)
         return ("named", p, name, [gen_type(rng, npk, depth - 1, allow_iface_lit) for _ in range(arity(name))])
@@ -121,6 +122,17 @@ def gen_line_g(rng):
     t = gen_type(rng, npk, rng.randint(1, 4), "methods")
     line = "G %d | %s | %s | %s" % (cur, " ".join(names), " ".join(pre), sexpr(t))
     return line, dict(cur=cur, names=names, pre=pre, type=t)
+
+def gen_line_b(rng):
+    """a `B` line: VarPool.getBaseName of a type (pointers in front, context.Context now and then)"""
+    r = rng.randint(0, 9)
+    if r == 0:
+        t_s = "ctx"
+    else:
+        t_s = sexpr(gen_type(rng, 4, rng.randint(0, 2), "methods"))
+    for _ in range(rng.choice([0, 0, 1, 1, 2])):
+        t_s = "( p %s )" % t_s
+    return "B " + t_s
 
 # ---- reading an answer back
 
